@@ -42,6 +42,16 @@ instance : DecidableEq Val := fun a b => decidable_of_iff _ (beqV_iff a b)
 section Sem
 variable (names : List String)
 
+/-- the sub-context addressed by a list of keys: descend through dictionaries; absent (`none`) as
+soon as a key is missing or a scalar is met where a dictionary is expected -/
+def valAt : Val → List String → Option Val
+  | v, [] => some v
+  | .dict l, k :: rest =>
+    match lookupKey names l k with
+    | none => none
+    | some w => valAt w rest
+  | .leaf _, _ :: _ => none
+
 /-- short-circuit OR of outcomes, left to right: the first outcome that is not `False` decides
 (`True`, or the exception, which propagates) -/
 def orRes : List Res → Res
@@ -71,7 +81,7 @@ def sem (r : Bool) : Spec → Item → Res
   | .andI l r', v => semAll r' l v
   | .orI l r', v => semAny r' l v
   | .selCtx k p r', v =>
-    match getRecursively names (v.context names.length) k with
+    match valAt names (.dict (v.context names.length)) k.keys with
     | none => .ok false
     | some sub => absorb r' (p sub)
   | .bad, _ => .raise "LenaTypeError"                                   -- never constructed
@@ -119,7 +129,7 @@ def semB : Spec → Item → Bool
   | .andI l _, v => semBAll l v
   | .orI l _, v => semBAny l v
   | .selCtx k p _, v =>
-    match getRecursively names (v.context names.length) k with
+    match valAt names (.dict (v.context names.length)) k.keys with
     | none => false
     | some sub => decide (p sub = .ok true)
   | .bad, _ => false
@@ -149,7 +159,7 @@ mutual
 def Spec.totalOn (v : Item) : Spec → Bool
   | .fn f => match f v with | .ok _ => true | .raise _ => false
   | .selCtx k p _ =>
-    match getRecursively names (v.context names.length) k with
+    match valAt names (.dict (v.context names.length)) k.keys with
     | none => true
     | some sub => match p sub with | .ok _ => true | .raise _ => false
   | .notI s _ | .selI s _ => s.totalOn v
@@ -160,15 +170,12 @@ def totalOnL (v : Item) : List Spec → Bool
   | s :: rest => s.totalOn v && totalOnL v rest
 end
 
-/-- the sub-context addressed by a list of keys: descend through dictionaries; absent (`none`) as
-soon as a key is missing or a scalar is met where a dictionary is expected -/
-def valAt : Val → List String → Option Val
-  | v, [] => some v
-  | .dict l, k :: rest =>
-    match lookupKey names l k with
-    | none => none
-    | some w => valAt w rest
-  | .leaf _, _ :: _ => none
+/-- the test of the last level of `contains`: a key of the dictionary found, or the `str()` of the scalar
+found; `False` when nothing is found -/
+def containsLast (last : String) : Option Val → Bool
+  | none => false
+  | some (.dict l) => (lookupKey names l last).isSome
+  | some (.leaf a) => pyStr a == last
 
 /-- the error raised by the first value (if any) on which the selector raises -/
 def firstError (o : Obj) : List Item → Option String
@@ -279,6 +286,11 @@ def IsLongestListed (I E : List Path) (p q : Path) : Prop :=
 first arrival, holding the values with that key in arrival order -/
 def groupsOf (key : Item → Slots) (xs : List Item) : Groups :=
   ((xs.map key).eraseDups).map (fun k => (k, xs.filter (fun v => key v = k)))
+
+/-- the key sets `GroupBy.__init__(group_by, merge)` passes to `make_include_exclude_tree` as
+`(includes, excludes)`: strings become 1-tuples; the default arguments `("", "")` mean "one group" -/
+def gbArgs (g m : StrOrTuple) : List String × List String :=
+  if g = .str "" ∧ m = .str "" then ([], [""]) else (g.toList, m.toList)
 
 /-- the context of a value is well formed over an alphabet of `n` keys -/
 def Item.WF (n : Nat) (v : Item) : Prop := WFV n (.dict (v.context n))
